@@ -28,8 +28,10 @@ def run_oracle(chk, rng, ncases, task, name, grounds, families=None):
                          sample=dict(oracle=name, family=x['spec']['family'], cond=round(x.get('cond', 0), 1)))
             for b in x['bad']:
                 sig = dict(stage=name, what=b.split(':')[0][:40])
+                LOADED = 'partial_distributed_load_at_multiwire_junction'
                 for fk, fv in (x.get('features') or {}).items():
-                    if fv:
+                    # the feature of the loaded variant belongs to its own message only
+                    if fv and ((fk == LOADED) == b.startswith('with skin-effect loads')):
                         sig = dict(stage=name, **{fk: True})
                 chk.violation(sig, b, x['spec'])
     chk.stages[name] = dict(cases=n, skipped_outside_domain=sk)
